@@ -850,6 +850,8 @@ class ESys:
         e = st.ens
         nc, na = st.nc, st.na
         ok = True
+        if self.quiet:
+            return self._touch(st)
         if after_failure and not self._check_rect(st, op, oc + ":rejected"):
             return False
         # ---- values: nothing but the target changed ------------------------------------------
@@ -921,6 +923,34 @@ class ESys:
         if ok and alias:
             ok = self._alias_probe(st, op, oc)
         return ok
+
+    def _touch(self, st):
+        """replay mode: exactly the accessor calls of _check_state (same objects, same order), no
+        comparisons - the prefix was validated when it was first executed"""
+        e = st.ens
+        nc, na = st.nc, st.na
+        try:
+            e.coords, e.atomic_charges, e.weights
+            e.name, e.charge, e.mult, e.n_bonds
+            e[0:nc], e[:], e[1:]
+            getters = [lambda i=i: e[i] for i in range(nc)]
+            kinds = ["idx"] * nc
+            if nc:
+                getters += [lambda: e[-1], lambda: e[0:nc][0], lambda: e[::-1][0]]
+                kinds += ["neg", "slice", "slice"]
+            for get, route in zip(getters, kinds):
+                c = get()
+                c.coords, c.coords.shape, c.atomic_charges, c.atomic_charges.shape
+                c.n_atoms, c.n_bonds, c.name, c.charge, c.mult
+                [a.element for a in c.atoms]
+                if na and route == "idx":
+                    c.get_atom_coord(na - 1)
+                    c.centroid()
+                    if na >= 2:
+                        c.distance(0, 1)
+        except Exception as ex:
+            raise HarnessError(f"replay of a validated prefix: reading raised {exc_name(ex)}: {ex}; hist={st.hist}")
+        return True
 
     def _alias_probe(self, st, op, oc):
         """If the ensemble's arrays share memory with an object that was only an *argument*, confirm
@@ -1359,6 +1389,98 @@ def repro_code(na, seed, hist):
 
 
 # =================================================================================================
+# directed pass: observe -> grow -> observe, every combination, NO state deduplication
+# (hidden state that lives where no fingerprint can see it - closures, module-level tables - still
+#  has to survive "something looked at the ensemble, then it grew, then something looks again")
+# =================================================================================================
+D_OBS = ["loop", "nested", "iterator", "dumps_xyz", "dumps_mol2", "center_core", "center_atom", "lib_ens", "cdump_last", "lib_conf_last", "w_neg", "w_slice", "set_weights"]
+D_GROW = [("append", "M0"), ("append", "own0"), ("extend", "L2"), ("extend", "E2"), ("extend", "self"), ("append", "E2c1"), ("extend", "L1"), ("extend", "ownslice"), ("extend", "gen")]
+D_KINDS_QUICK = ["list2", "mol", "atoms0", "ens", "empty", "clib"]
+
+
+def d_expand(st, o):
+    """operation list of an observer macro in the current state (None = not applicable)"""
+    nc, na = st.nc, st.na
+    if o == "loop":
+        return [("loop",)]
+    if o == "nested":
+        return [("nested",)]
+    if o == "iterator":
+        return [("iter", 0)] + [("next", 0, "r")] * (nc + 1)
+    if o in ("dumps_xyz", "dumps_mol2"):
+        return [("obs", o)]
+    if o == "center_core":
+        return [("tf", "center_core")] if na else None
+    if o == "center_atom":
+        return [("tf", "center_atom")] if na else None
+    if o == "lib_ens":
+        return [("obs", "lib_ens")] if na else None
+    if o == "cdump_last":
+        return [("obs", "cdump_xyz", nc - 1)] if nc else None
+    if o == "lib_conf_last":
+        return [("obs", "lib_conf", nc - 1)] if nc else None
+    if o == "w_neg":
+        return [("w", "neg", nc - 1, "c_el")] if nc and na else None
+    if o == "w_slice":
+        return [("w", "slice", nc - 1, "q_all")] if nc else None
+    if o == "set_weights":
+        return [("set", "weights")]
+    raise HarnessError(o)
+
+
+def _directed_part(ctx, part):
+    p, kinds = part
+    sm = ESys(ctx, na=p["na"], ncmax=64, nit=2, label="dir", kinds=KINDS, full=True)
+    obs, grow, rounds = p["obs"], p["grow"], p["rounds"]
+
+    def run_ops(st, ops):
+        for op in ops:
+            ctx.transitions += 1
+            if not sm.step(st, op):
+                return False
+        return True
+
+    def finish(st):
+        k = seqx._h(sm.canon(st))
+        ctx.state_keys.add(k)
+        ctx.outcome(seqx._h(sm.observe(st)))
+        if sm.is_nontrivial(st):
+            ctx.nontrivial(k)
+        ctx.traces += 1
+
+    def rec(prefix, r):
+        """prefix: validated plain-op history ending in a growth op (or the constructor)"""
+        for o1 in obs:
+            st = sm.build(prefix)
+            ops1 = d_expand(st, o1)
+            if ops1 is None:
+                sm.dispose(st)
+                continue
+            ok = run_ops(st, ops1)
+            if ok:
+                finish(st)
+            nc = st.nc
+            sm.dispose(st)
+            if not ok or r == 0:
+                continue
+            for g in grow:
+                if g[1] in ("own0", "self", "ownslice") and nc < 1:
+                    continue
+                st = sm.build(prefix + ops1)
+                ok = run_ops(st, [g])
+                sm.dispose(st)
+                if ok:
+                    rec(prefix + ops1 + [g], r - 1)
+
+    for k in kinds:
+        st = sm.build([])
+        ok = run_ops(st, [("new", k)])
+        sm.dispose(st)
+        if ok:
+            rec([("new", k)], rounds)
+
+
+# =================================================================================================
 def run(ctx):
     thorough = ctx.thorough
     ctx.rule = (
@@ -1367,7 +1489,10 @@ def run(ctx):
         "plain and nested loops, dumps, library storage), states rebuilt by replay and deduplicated by a value-free "
         "canonical form (array shapes/dtypes/flags, counts, iteration cursor, per-iterator position and the classes of "
         "operations run since its last step); reference model = three numpy arrays + one position per iterator; "
-        "a state is non-trivial when it holds >= 2 conformers of >= 1 atom after >= 2 operations"
+        "a state is non-trivial when it holds >= 2 conformers of >= 1 atom after >= 2 operations; the canonical form also "
+        "fingerprints every instance attribute the model does not know (names, types, lengths/shapes, conformer ids) and "
+        "the fill level of every functools cache on the classes; in addition every history constructor . observer . growth . "
+        "observer (thorough: two rounds) is executed without any deduplication"
     )
     ctx.assumptions += [
         "the values stored by constructors, append/extend (incl. the charges and weights of new conformers) and collective transformations are not part of this property: after checking the shapes the model re-synchronises from the object (C06/C11 cover the values)",
@@ -1376,6 +1501,7 @@ def run(ctx):
         "a conformer object is identified with a row by its declared conformer id, else by the memory its coords view",
         "'serialised' is read as: stored through molli.chem.io (MoleculeLibrary / ConformerLibrary); pickling is C06's concern; the dead legacy method ConformerEnsemble.serialize() is not called",
         "dump round trip: an independent 20-line reader per format; coordinates compared at the 6 decimals the writers print, mol2 charges at 3 decimals",
+        "the harness's own reads through conformers after each step are part of the history: they are repeated identically when a prefix is replayed",
         "the canonical form leaves array *values* out (no operation of the property branches on them); the per-step comparison with the model is exact (NaN == NaN)",
     ]
     if thorough:
@@ -1396,6 +1522,21 @@ def run(ctx):
         for k in list(ctx.notes):
             if k.startswith("level_"):
                 ctx.notes[f"{p['label']}_{k}"] = ctx.notes.pop(k)
+    # ---- directed observe -> grow -> observe pass (no deduplication) ----------------------------
+    if thorough:
+        dplans = [
+            dict(na=2, obs=D_OBS, grow=D_GROW, rounds=1, kinds=KINDS),
+            dict(na=1, obs=D_OBS, grow=D_GROW[:5], rounds=1, kinds=D_KINDS_QUICK),
+            dict(na=2, obs=["loop", "iterator", "dumps_xyz", "center_core", "w_neg"], grow=D_GROW[:4], rounds=2, kinds=D_KINDS_QUICK),
+        ]
+    else:
+        dplans = [dict(na=2, obs=D_OBS[:10], grow=D_GROW[:5], rounds=1, kinds=D_KINDS_QUICK)]
+    t0 = ctx.transitions
+    for i, dp in enumerate(dplans):
+        parts = [({k: v for k, v in dp.items() if k != "kinds"}, [kind]) for kind in dp["kinds"]]
+        ctx.pmap(_directed_part, parts)
+        ctx.bound[f"directed_{i}"] = {"na": dp["na"], "observers": len(dp["obs"]), "growth_ops": len(dp["grow"]), "rounds_of_grow_then_observe": dp["rounds"], "constructors": len(dp["kinds"]), "dedup": False}
+    ctx.note("directed_pass_transitions", ctx.transitions - t0)
     ctx.note("distinct_canonical_states", len(ctx.state_keys))
 
 
